@@ -10,12 +10,13 @@ Three populations, one oracle each:
     the closing quote of one literal dropped (termination only); plus token-level edit noise (delete/insert/
     replace/duplicate/swap/truncate).
 (c) random strings over the SML token alphabet.
-For (b,c) the call must terminate (line events inside secsgem/secs/*.py are counted with sys.settrace; more than
-150*len + 2000 is the violation "step-bound-exceeded" - measured need is < 50*len + 100, i.e. linear, so the
-bound is linear too: a quadratic allowance lets a non-terminating `data += ...` loop copy gigabytes before it is
-stopped; never a wall clock) with an item or an exception, and it must RAISE whenever vf.ref.smllex says that the first item of the text
-has an opening bracket without its closing bracket or that a bare token in type position (directly after `<`) inside
-the first item is not one of the 15 type names.
+For (b,c) - and for the parse half of (a) as well - the call must terminate: line events inside secsgem/secs/*.py
+are counted with sys.settrace and more than 60*len + 100*tokens + 2000 of them is the violation
+"step-bound-exceeded" (measured need is < 27*len + 50*tokens + 200, i.e. linear, so the bound is linear too: under a
+quadratic allowance a non-terminating `data += ...` loop copies gigabytes before it is stopped; a wall clock is never
+consulted). The call must end with an item or an exception, and it must RAISE whenever vf.ref.smllex says that the
+first item of the text has an opening bracket without its closing bracket or that a bare token in type position
+(directly after `<`) inside the first item is not one of the 15 type names.
 
 Corrections (things the statement does not demand, so the check does not either)
   * Text after the first complete item (`< U1 1 > junk`, `< U1 1 > < X >`) is not looked at by `from_sml` (it reads
@@ -39,6 +40,10 @@ Root-cause buckets. Existing defects have a trigger that can be read off the inp
 "clean" populations without the trigger by construction (classes trig:none / dot:no) next to "raw" ones, and a
 failing tree is attributed leaf by leaf (generic causes first), so that registering a bucket as known leaves the
 rest of the space searched.
+
+Failing cases are reduced by the check itself (minimise_tree / minimise_text: greedy, bounded by evaluation and step
+counts, bucket-preserving) and ctx.hyp is called with shrink=False: the runner's Hypothesis shrink phase is bounded by
+wall clock and ends in a Flaky error when it runs out on 30-deep trees on a loaded machine.
 """
 
 from __future__ import annotations
@@ -69,7 +74,7 @@ RULE = (
     "(a) item trees -> Item objects; from_sml(to_sml()) must have the same classes and encode() bytes (which must equal "
     "the independent E5 encoding of the tree). (b) valid SML (secsgem to_sml or an independent writer, 5 layouts) with "
     "one closing '>' deleted / one type name replaced by an unknown identifier / one closing quote dropped / 1-4 token "
-    "edits; (c) random token strings. Oracle (b,c): line-event count inside secsgem/secs <= 150n+2000, result is "
+    "edits; (c) random token strings. Oracle (b,c): line-event count inside secsgem/secs <= 60n+100*tokens+2000, result is "
     "an Item or an exception, exception required when ref.smllex finds the first item unbalanced or a type name "
     "unknown (only for text whose lexing is unambiguous; random strings: only without quote characters). "
     "Non-trivial = A/J text containing a tokenizer-special character (<>[]'\". or white space/control), or nesting "
@@ -81,7 +86,8 @@ ASSUMPTIONS = [
     "SML lexical conventions as written in vf/ref/smllex.py: blank/tab/CR/LF separate tokens, <>[] are single tokens, "
     "a literal runs from a token-initial quote to the next identical quote; type names are the 15 ASCII names, "
     "case-insensitive",
-    "termination is judged by a step bound that is 3x the measured worst case (48 line events per character) on 0..1000 character inputs",
+    "termination is judged by a step bound that is 2.3x-3.5x the measured worst case (27 line events per character "
+    "+ 50 per token) on 0..1200 character inputs; class info:steps-over-half-of-bound counts calls that came near it",
 ]
 BUDGET_S = {"quick": 100, "thorough": 900}
 
@@ -104,8 +110,15 @@ B_UNKNOWN = "accepts-unknown-type-name"
 B_CASEFOLD = "type-name-nonascii-casefold"
 
 
-def step_bound(n):
-    return 150 * n + 2000
+def step_bound(n, ntokens):
+    """Allowed line events inside secsgem/secs for a text of n characters and ntokens (reference lexer) tokens.
+
+    Measured need: tokenizer <= 27 per character, parser <= 50 per token, < 200 fixed (error message included).
+    Linear on purpose: the loops that can fail to terminate accumulate (`data += ...`), a generous quadratic
+    allowance lets them copy gigabytes before they are stopped. secsgem never sees more tokens than the reference
+    lexer (it only merges more text into literals), so the token term cannot be too small.
+    """
+    return 60 * n + 100 * ntokens + 2000
 
 
 # --------------------------------------------------------------------------------------------
@@ -117,6 +130,7 @@ class _StepLimit(BaseException):
 
 
 STEPS_USED = [0]  # line events spent so far in this process (budget for the minimisers)
+NEAR_BOUND = [0]  # calls that ended normally but used more than half of their allowance (margin monitor)
 
 
 class Outcome:
@@ -128,11 +142,13 @@ class Outcome:
         self.steps = steps
 
 
-def bounded_from_sml(text):
+def bounded_from_sml(text, ntokens=None):
     """Item.from_sml(text) with a bound on line events inside secsgem/secs. Deterministic."""
     from secsgem.secs.items import Item
 
-    limit = step_bound(len(text))
+    if ntokens is None:
+        ntokens = len(smllex.lex(text)[0])
+    limit = step_bound(len(text), ntokens)
     n = [0]
 
     def local(frame, event, arg):
@@ -158,7 +174,9 @@ def bounded_from_sml(text):
     except _StepLimit:
         return Outcome("steps", None, n[0])
     except Exception as exc:  # any exception is a rejection
+        NEAR_BOUND[0] += 2 * n[0] > limit
         return Outcome("raise", exc, n[0])
+    NEAR_BOUND[0] += 2 * n[0] > limit
     return Outcome("item", value, n[0])
 
 
@@ -208,7 +226,7 @@ def _rt_item(item):
         return ("to_sml-raises", _exc(exc), "")
     out = bounded_from_sml(sml)
     if out.kind == "steps":
-        return ("steps", f"> {step_bound(len(sml))} line events for {len(sml)} characters", sml)
+        return ("steps", f"> {out.steps - 1} line events for {len(sml)} characters", sml)
     if out.kind == "raise":
         return ("rejected", _exc(out.value), sml)
     r = out.value
@@ -334,7 +352,7 @@ def check_text(text, strict_quotes=False, demand=True, info=None):
     a = smllex.analyse(toks)
     quotes = ("'" in text) or ('"' in text)
     must = demand and a.must_reject and not amb and not (strict_quotes and quotes)
-    out = bounded_from_sml(text)
+    out = bounded_from_sml(text, len(toks))
     if info is not None:
         info.update(
             has_item=a.has_item,
@@ -348,7 +366,7 @@ def check_text(text, strict_quotes=False, demand=True, info=None):
         )
     case = {"k": "text", "text": text, "strict": bool(strict_quotes), "demand": bool(demand)}
     if out.kind == "steps":
-        return Failure(B_STEPS, case, f"more than {step_bound(len(text))} line events for {len(text)} characters", "terminates within the bound")
+        return Failure(B_STEPS, case, f"more than {step_bound(len(text), len(toks))} line events for {len(text)} characters / {len(toks)} tokens", "terminates within the bound")
     if out.kind == "raise":
         return None
     r = out.value
@@ -514,7 +532,7 @@ def random_text(dot, quotes, max_tokens=40):
     @st.composite
     def _s(draw):
         n = draw(st.integers(0, max_tokens))
-        parts = []
+        parts = ["<", draw(SEPS)] if draw(st.integers(0, 9)) < 6 else []
         for _ in range(n):
             parts.append(draw(alphabet_token(dot, quotes)))
             parts.append(draw(SEPS))
@@ -831,9 +849,9 @@ def plan(tier, seed):
     q = tier == "quick"
     tasks = [("enum", {}), ("names", {})]
     n_clean, n_raw, n_mut, n_rand = (6, 2, 4, 4) if q else (16, 8, 16, 16)
-    per_rt = 520 if q else 9000
-    per_mut = 520 if q else 6000
-    per_rand = 800 if q else 9000
+    per_rt = 800 if q else 9000
+    per_mut = 800 if q else 6000
+    per_rand = 1200 if q else 9000
     for i in range(n_clean):
         tasks.append(("rt", {"mode": "clean", "shard": i, "n": per_rt}))
     for i in range(n_raw):
@@ -844,7 +862,7 @@ def plan(tier, seed):
         tasks.append(("rand", {"dot": (i % 4 == 3), "shard": 150 + i, "n": per_rand}))
     if not q:
         for i in range(16):
-            tasks.append(("fuzz", {"shard": i, "runs": 250000}))
+            tasks.append(("fuzz", {"shard": i, "runs": 1000000}))
     return tasks
 
 
@@ -867,6 +885,9 @@ def run_task(name, kw, ctx):
         _fuzz_task(kw, ctx)
     else:
         raise ValueError(name)
+    if NEAR_BOUND[0]:
+        ctx.count("info:steps-over-half-of-bound", NEAR_BOUND[0])
+        NEAR_BOUND[0] = 0
 
 
 def _enum_task(ctx):
@@ -1059,6 +1080,9 @@ def _fuzz_task(kw, ctx):
         if not os.path.exists(stats_path):
             raise RuntimeError(f"fz_sml did not finish cleanly (rc={r.returncode}): {r.stderr[-1500:]}")
         stats = json.load(open(stats_path))
+        for line in r.stderr.splitlines():  # the target's own counters are flushed every 2000 executions only
+            if line.startswith("stat::number_of_executed_units:"):
+                stats["execs"] = max(stats["execs"], int(line.split(":")[-1]))
         ctx.evals += stats["execs"]
         ctx.count("fuzz:execs", stats["execs"])
         ctx.count("fuzz:demand-reject", stats["must"])
@@ -1075,6 +1099,7 @@ def _fuzz_task(kw, ctx):
                 if f is None:
                     raise RuntimeError(f"fz_sml finding does not reproduce: {d}")
                 ctx.report(f)
+        minimise_failures(ctx)
     finally:
         shutil.rmtree(tmp, ignore_errors=True)
 
